@@ -503,4 +503,4 @@ def run(ctx):
     r20_4(ctx)
     ctx.floor('R20.4', 8)
     r20_5(ctx)
-    ctx.floor('R20.5', 2)
+    ctx.floor('R20.5', 1)
